@@ -528,7 +528,7 @@ EARLY_STARTS = [D.datetime(1, 1, 1, 0, 0, 0), D.datetime(99, 12, 31, 23, 59, 59)
 
 def run(ctx):
     k = ctx.pick(2, 2)
-    starts = ctx.rotate(rules.STARTS[:6], 2) if not ctx.thorough else rules.STARTS[:6]
+    starts = (ctx.rotate(rules.STARTS[:6], 1) + [rules.STARTS[7]]) if not ctx.thorough else rules.STARTS[:6] + [rules.STARTS[7]]
     menus_naive = collections.OrderedDict((k_, v) for k_, v in rules.MENUS.items() if k_ != 'kind')
 
     def rt_cases(starts, k, freqs=range(7)):
